@@ -1,7 +1,12 @@
 use std::cmp;
 use std::collections::{BinaryHeap, HashMap};
 use std::mem;
+#[cfg(not(may_verif))]
 use std::sync::atomic::{AtomicUsize, Ordering};
+#[cfg(may_verif)]
+use crate::verif::atomic::AtomicUsize;
+#[cfg(may_verif)]
+use std::sync::atomic::Ordering;
 use std::sync::Arc;
 use std::thread;
 use std::time::{Duration, Instant};
@@ -9,7 +14,10 @@ use std::time::{Duration, Instant};
 use may_queue::mpsc::Queue;
 use may_queue::mpsc_list_v1::Entry;
 use may_queue::mpsc_list_v1::Queue as TimeoutQueue;
+#[cfg(not(may_verif))]
 use parking_lot::{Mutex, RwLock};
+#[cfg(may_verif)]
+use crate::verif::lock::{Mutex, RwLock};
 
 use crate::sync::AtomicOption;
 
